@@ -39,7 +39,7 @@ def plan(ctx):
             exhaustive = False
         else:
             pick = allsets
-        for i, ch in enumerate(chunks(pick, 16)):
+        for i, ch in enumerate(chunks(pick, 16 if n <= 11 else 24)):
             obs.append(l1_ob(k, m, hd, ch, b=4, idx=i))
     # payload lengths / build flavours (chunk + tail paths of xor_bufs_and_store inside the decoders)
     for (k, m, hd) in [(3, 3, 3), (6, 6, 4)] + ([(10, 5, 3), (12, 6, 4), (15, 6, 3), (20, 6, 4), (10, 5, 4)] if ctx.tier == "thorough" else []):
